@@ -132,6 +132,9 @@ static void record_packet(Instance &I, EbBufferHeaderType *p) {
     if (p->p_buffer && p->n_filled_len) k.data.assign(p->p_buffer, p->p_buffer + p->n_filled_len);
     if (p->flags & EB_BUFFERFLAG_EOS) I.eos_packet = true;
     I.packets.push_back(std::move(k));
+    // an error packet (no payload, flags = internal error code) is the library's fatal-error report: the reporting thread then spins for ever
+    // (CHECK_REPORT_ERROR_NC: error_handler(); while (1);), so nothing else will ever arrive - end the run here instead of waiting for the watchdog
+    if (!p->n_filled_len && (p->flags & 0xfffffff0u) && sim_active()) { char b[96]; snprintf(b, sizeof b, "library reported internal error 0x%x in an error packet", p->flags); world_fatal("TRAP_ERROR_PACKET", b); }
 }
 static size_t recon_size(const Instance &I) { size_t l = (size_t)I.cfg->source_width * I.cfg->source_height; return (l + l / 2) << (I.cfg->encoder_bit_depth > 8); }
 static int poll_recon(Instance &I, int maxn, bool null_handle, bool null_buf, long &last) {
